@@ -275,6 +275,9 @@ PLAN = [
     ("smooth_height", [], [{}]),
     ("smooth_height", ["compute_tip_position"], [{}]),
     ("correct_force_offset", ["compute_tip_position", "correct_tip_offset", "correct_force_slope"], [{}]),
+    # a step listed a second time, after another step has invalidated its first result
+    ("correct_force_offset", ["compute_tip_position", "correct_force_offset", "correct_tip_offset",
+                              "correct_force_slope"], "slopes-all"),
 ]
 
 
@@ -282,6 +285,9 @@ def option_sets(kind, methods, rng, full):
     if kind == "methods":
         ms = methods if full else rng.sample(methods, 2)
         return [{"correct_tip_offset": {"method": m}} for m in ms]
+    if kind == "slopes-all":
+        return [{"correct_tip_offset": {"method": rng.choice(["deviation_from_baseline", "fit_line_polynomial"])},
+                 "correct_force_slope": {"region": "all", "strategy": st}} for st in STRATEGIES]
     if kind == "slopes":
         combos = [(r, s) for r in REGIONS for s in STRATEGIES]
         if not full:
